@@ -16,6 +16,7 @@ import SwcVerif.Model.Images
 import SwcVerif.Model.Features
 import SwcVerif.Model.AlgoRunDsu
 import SwcVerif.Model.AlgoRunTraverse
+import SwcVerif.Model.AlgoRunTravFront
 import SwcVerif.Model.AlgoRunSort
 import SwcVerif.Model.AlgoRunSubtree
 import SwcVerif.Model.AlgoRunPopulation
@@ -68,6 +69,7 @@ def dispatch (op : String) (args : List String) : String :=
   | "greset" => AlgoRun.handleReset args
   | "gbranches" | "gpaths" | "gfurcs" => AlgoRun.handleBranches op args
   | "gtrav" => AlgoRun.handleTrav args
+  | "gtravfront" => AlgoRun.handleTravFront args
   | "gsort" => AlgoRun.handleSort args
   | "gsubtopo" => AlgoRun.handleSubTopo args
   | "gsubtree" => AlgoRun.handleSubtree args
